@@ -286,8 +286,50 @@ class Fe(Family):
             steps.append(step(op, nums, data, fds, regions, sc))
         return [VN(maxq), VL(steps)]
 
-    def generate(self, rng, tier):
+    def truncated(self, rng, op, cut_kind):
+        """C08, receiving side of the frontend: a fully negotiated session, then one call whose otherwise conformant
+        reply ends (the peer closes) at a characteristic offset inside the message"""
+        maxq = rng.choice([2, 4, 256])
+        st = St(maxq)
+        st.hf = 8
+        steps = [step("set_hdr_flags", [8])]
+        v = W.VF_PROTOCOL_FEATURES | 3
+        steps.append(step("get_features", script=[(reply(1, W.u64(v)), [])]))
+        st.vf = v
+        steps.append(step("set_features", [v], script=self.good_reply(rng, st, "set_features", [v], b"")))
+        st.avf = v
+        steps.append(step("get_protocol_features", script=[(reply(15, W.u64(W.PF_ALL)), [])]))
+        st.apf = W.PF_ALL
+        steps.append(step("set_protocol_features", [W.PF_ALL], script=self.good_reply(rng, st, "set_protocol_features", [W.PF_ALL], b"")))
+        for _ in range(8):
+            nums, data, fds, regions = self.args_for(rng, st, op)
+            if op == "get_config":
+                size = rng.choice([1, 2, 8, 16, 0x100])
+                nums = [rng.choice([0, 1, 0x100, 0x1000 - size]), size, rng.choice([0, 1, 2, 3])]
+                data = bytes(1 + rng.below(255) for _ in range(size))
+            sc = self.good_reply(rng, st, op, nums, data)
+            if sc:
+                break
+        if sc:
+            b, rf = sc[0]
+            n = len(b)
+            cut = {0: 0, 1: 1, 2: 11, 3: 12, 4: 13, 5: n - 1, 6: 20, 7: 23, 8: 24, 9: 25}.get(cut_kind)
+            if cut is None or cut >= n:
+                cut = rng.below(n)
+            sc = [(bytes(b[:cut]), rf)] if cut > 0 else []
+        steps.append(step(op, nums, data, fds, regions, sc))
+        return [VN(maxq), VL(steps)]
+
+    def generate_truncated(self, rng, tier):
         out = []
+        for _ in range(1 if tier == "quick" else 6):
+            for op in OPS_REPLY + ["set_vring_num", "set_vring_base", "set_vring_enable", "set_config"]:
+                for ck in range(11):
+                    out.append((self.truncated(rng, op, ck), "truncated-reply"))
+        return out
+
+    def generate(self, rng, tier):
+        out = self.generate_truncated(rng, tier)
         n1, n2 = (1500, 1500) if tier == "quick" else (12000, 12000)
         for _ in range(n1 // 3):
             out.append((self.one_focused(rng), "negotiated-session"))
@@ -299,3 +341,10 @@ class Fe(Family):
 
     def nontrivial(self, args, obs):
         return '(VL [(VH "' in obs
+
+
+class FeTrunc(Fe):
+    """the receiving side of the frontend under a stream that ends inside a reply (C08)"""
+
+    def generate(self, rng, tier):
+        return self.generate_truncated(rng, tier)
